@@ -22,7 +22,7 @@ import numpy as np
 PROP = 'C02'
 TARGETS = ['T8', 'T8b', 'T8c', 'T8d', 'T8e', 'T8f', 'T8g', 'T8h', 'T8j', 'T8k', 'T8m', 'T8n', 'T8p', 'T8q', 'T17p']
 LEAN_MODULES = ['HdVerif.Props.C02']
-MODEL_MODULES = ['HdVerif.Model.SegRead', 'HdVerif.Model.SegMeta', 'HdVerif.Model.Effects']
+MODEL_MODULES = ['HdVerif.Model.SegRead', 'HdVerif.Model.SegReadSpec', 'HdVerif.Model.SegMeta', 'HdVerif.Model.Effects']
 NAMESPACE = 'HdVerif.C02'
 DRIVER = 'Drivers/C02.lean'
 RULE = ('segmentation objects built with the real constructor from (source kind, type, segment numbers, mask, '
